@@ -235,6 +235,19 @@ also("C18", "(R-NIL-LAZY) a map made for a nil receiver is stored back through t
 also("C19", "R-BUF-BOUND keeps one interval per state of knowledge about the argument's membership (unknown, present, absent), reads Len ± k guards, and R-EXACT-REGIME accepts Len >= cap as established by the interval analysis on every way to a removal.")
 also("C01", "(R-REBUILD-EMPTY) the subtree argument of the in-place rebuild, and of the helpers it is handed on to, is dereferenced only under a nil test - Remove rebuilds an empty tree once the last key is gone.")
 also("C07", "(R-SLICE-LEN) the slice Queue.Slice returns has, as a linear form over head, n and the buffer length, exactly n elements.")
+# ---- mutation sweep (DESIGN 8.7)
+also("C01", "R-RELINK holds on every path of the successor pop; (R-EMPTY-LEN) IsEmpty has the polarity 'true for nothing'.")
+also("C02", "The sibling whose size enters the rebuilt count is assigned on both descents.")
+also("C03", "(R-HAS-POLARITY) HasLeft/HasRight compare the child link with nil by !=.")
+also("C04", "R-SIZE-GUARD and R-EMPTY-LEN also run over package omap (sizes read through Len()).")
+also("C07", "(R-PUSH-STORES) every path of Push stores its argument into a buffer cell; a walk that reads slot head inside a loop never advances; R-SIZE-GUARD over the count field.")
+also("C10", "A method whose contract grows the stack writes it on every path; IsEmpty of ring and mlink.List has the polarity 'true for nothing'.")
+also("C12", "In LCSFunc a match extends the recorded chain length by exactly one.")
+also("C13", "(R-CHUNKS-ALL) a range loop over a slice of chunks is left only by exhaustion; a span is trimmed only where its edit is known to be an Emit edit; an access on the path where its index is known to be beyond the length is reported; R-SIZE-GUARD over package mdiff, including requested counts.")
+also("C17", "(R-OFFSET-SIBLING) offset normalisers add the length exactly when i < 0; (R-INPLACE-WRITES) an exported function with a slice parameter and no result writes through it; (R-CONST-INDEX) constant indices are covered by the dominating length tests.")
+also("C18", "On the nil-receiver edge every path stores through the receiver; an answer computed from sizes alone is given only for an empty receiver; (R-CONST-INDEX) constant indices into the variadic list are covered by its length tests.")
+also("C19", "In the removal pass the tested register is shifted or refilled on every way round (a fresh bit per element).")
+also("C20", "R-CMP-CHAIN: after a tie the loop takes the next piece.")
 # ---- eighth round (slips in refactored code)
 also("C01", "The helper that unlinks the in-order successor hands back a node whose small-side child is nil by a dominating branch fact (it is the minimum).")
 also("C04", "R-OK-FORWARD also reports an accessor that returns a lookup's value with the negation of that lookup's ok.")
